@@ -2,7 +2,7 @@
    Only the property theorems, each closed by [exact] and followed by Print Assumptions. *)
 From Coq Require Import List ZArith.
 From MirV Require Import C08.CLayout C08.SysVLayout C08.CClassify C08.SysVClassify C08.StepProofs
-  C08.LayoutProofs C08.ClassifyProofs C08.DisjointProofs.
+  C08.LayoutProofs C08.ClassifyProofs C08.DisjointProofs C08.TotalProofs.
 Import ListNotations.
 Local Open Scope Z_scope.
 
@@ -112,3 +112,72 @@ Example c08_long_double_ok :
   wf_ty c08_long_double = true /\ is_agg c08_long_double = true /\ no_pad c08_long_double = true /\
   pass_aggregate_arg c08_long_double 0 0 = (3, 1, 1) /\ pass_aggregate_arg c08_long_double 6 0 = (0, 6, 0).
 Proof. vm_compute. auto 10. Qed.
+
+(* ------------------------------------------------------------------ audit round 2: no guard *)
+
+(* For EVERY well-formed struct/union c2mir's eightbyte classes are the psABI's with the NO_CLASS
+   (padding-only) eightbytes turned into INTEGER: the only thing c2mir ever does differently. *)
+Theorem classify_eq_sysv_total : forall t,
+  wf_ty t = true -> is_agg t = true ->
+  option_map (map tr) (classify_arg t) = option_map (map pad_int) (sysv_classify t).
+Proof. exact classify_eq_sysv_total_lemma. Qed.
+Print Assumptions classify_eq_sysv_total.
+
+(* ... hence the deviation is characterised both ways: c2mir's classification equals the psABI's
+   if and only if no eightbyte of the aggregate is NO_CLASS in the psABI ([no_pad]); any other
+   disagreement breaks this theorem. *)
+Theorem classify_deviation_iff : forall t,
+  wf_ty t = true -> is_agg t = true ->
+  (option_map (map tr) (classify_arg t) = sysv_classify t <-> no_pad t = true).
+Proof. exact classify_deviation_iff_lemma. Qed.
+Print Assumptions classify_deviation_iff.
+
+(* passing and returning of every aggregate, guard-free: the psABI's rules applied to those classes *)
+Theorem blk_type_total : forall t ni nf,
+  wf_ty t = true -> is_agg t = true ->
+  pass_aggregate_arg t ni nf =
+    (let '(pl, i2, f2) := sysv_pass_of (c2m_classes t) ni nf in (blk_of_places pl, i2, f2)).
+Proof. exact blk_type_total_lemma. Qed.
+Print Assumptions blk_type_total.
+
+Theorem ret_total : forall t,
+  wf_ty t = true -> is_agg t = true ->
+  option_map (map rplace_of) (process_ret_type t) = sysv_return_of (c2m_classes t).
+Proof. exact ret_total_lemma. Qed.
+Print Assumptions ret_total.
+
+(* the hidden result pointer is used exactly when the psABI returns in MEMORY - every aggregate *)
+Theorem ret_memory_iff : forall t,
+  wf_ty t = true -> is_agg t = true ->
+  (process_ret_type t = None <-> sysv_return t = None).
+Proof. exact ret_memory_iff_lemma. Qed.
+Print Assumptions ret_memory_iff.
+
+(* All by-value parameter positions of a signature at once: any result (scalar/void, or a struct/union
+   returned in registers or through the hidden pointer, which takes %rdi), any list of INTEGER, SSE
+   and long double scalars and struct/union parameters.  c2mir's n_iregs/n_fregs counters run past
+   6 / 8; the psABI side ([sv_signature]) counts assigned registers and stops at 6 / 8.  The MIR block
+   type of every aggregate parameter encodes the psABI's placement. *)
+Theorem signature_eq_sysv : forall r ps,
+  result_ok r -> Forall param_ok ps ->
+  c2m_signature r ps = map (option_map blk_of_places) (sv_signature r ps).
+Proof. exact signature_eq_sysv_lemma. Qed.
+Print Assumptions signature_eq_sysv.
+
+(* sign of the value read from a bit-field (sign- or zero-extension), c2mir vs gcc: equal for every
+   integer/_Bool type; for enum types narrower than 32 bits equal when the enum has no negative
+   enumerator, or on a tree with fixes/C08-7 ([fix_] = true); refuted on the tree without it. *)
+Theorem bf_sign_basic_eq_sysv : forall fix_ k w,
+  c2m_bf_signed fix_ (TBasic k) w = sv_bf_signed (TBasic k) w.
+Proof. exact bf_sign_basic_lemma. Qed.
+Print Assumptions bf_sign_basic_eq_sysv.
+
+Theorem bf_sign_enum_eq_sysv_partial : forall fix_ lo hi w, w < 32 -> (fix_ = true \/ 0 <= lo) ->
+  c2m_bf_signed fix_ (TEnum lo hi) w = sv_bf_signed (TEnum lo hi) w.
+Proof. exact bf_sign_enum_lemma. Qed.
+Print Assumptions bf_sign_enum_eq_sysv_partial.
+
+Theorem bf_sign_enum_eq_sysv_refuted : exists lo hi w, 0 < w /\ lo <= 0 <= hi /\
+  c2m_bf_signed false (TEnum lo hi) w <> sv_bf_signed (TEnum lo hi) w.
+Proof. exact bf_sign_refuted_lemma. Qed.
+Print Assumptions bf_sign_enum_eq_sysv_refuted.
